@@ -888,3 +888,24 @@ Proof.
     + split; [discriminate|intros H; inversion H; congruence].
     + split; [discriminate|intros H; inversion H; congruence].
 Qed.
+
+(** * validity of every credential *)
+Theorem all_valid_at_iff_ : forall now vs,
+  all_valid_at now vs = true <-> Forall (fun v => fst v <= now < snd v) vs.
+Proof.
+  intros now vs. unfold all_valid_at. rewrite forallb_forall, Forall_forall.
+  split; intros H v Hv; specialize (H v Hv); unfold valid_at in *.
+  - apply andb_true_iff in H. rewrite N.leb_le, N.ltb_lt in H. exact H.
+  - apply andb_true_iff. rewrite N.leb_le, N.ltb_lt. exact H.
+Qed.
+
+Theorem all_valid_not_last_only_ :
+  (forall now vs, all_valid_at now vs = true -> last_valid_at now vs = true)
+  /\ (exists now vs, last_valid_at now vs = true /\ all_valid_at now vs = false).
+Proof.
+  split.
+  - intros now vs H. unfold last_valid_at. destruct (rev vs) as [|v l] eqn:E; [reflexivity|].
+    unfold all_valid_at in H. rewrite forallb_forall in H. apply H.
+    apply in_rev. rewrite E. left. reflexivity.
+  - exists 5, [(7, 9); (0, 9)]. split; reflexivity.
+Qed.
